@@ -8,36 +8,40 @@ use wtransport_proto::frame::FrameKind;
 use wtransport_proto::varint::VarInt;
 
 use super::session::StreamSession;
+use super::FrameReader;
 use super::ProtoReadError;
 use crate::driver::DriverError;
 use crate::error::ApplicationClose;
 use std::future::pending;
 
 pub struct ConnectStream {
-    stream: Option<StreamSession>,
+    stream: FrameReader<StreamSession>,
 }
 
 impl ConnectStream {
     pub fn empty() -> Self {
-        Self { stream: None }
+        Self {
+            stream: FrameReader::empty(),
+        }
     }
 
     pub fn is_empty(&self) -> bool {
-        self.stream.is_none()
+        self.stream.is_empty()
     }
 
     pub fn set_stream(&mut self, stream: StreamSession) {
-        self.stream = Some(stream);
+        self.stream.set_stream(stream);
     }
 
     pub async fn run(&mut self) -> DriverError {
-        let stream = match self.stream.as_mut() {
-            Some(stream) => stream,
-            None => pending().await,
-        };
-
         loop {
-            return match stream.read_frame().await {
+            // Cancel safe: a partially received frame is resumed by the next call.
+            let result = match self.stream.read_frame().await {
+                Some(result) => result,
+                None => pending().await,
+            };
+
+            return match result {
                 Ok(frame) => {
                     if !matches!(frame.kind(), FrameKind::Data) {
                         debug!("Skipping non-data frame of kind {:?}", frame.kind());
@@ -73,8 +77,8 @@ impl ConnectStream {
 
                     // reset right away to avoid receiving additional data which requires resetting with ErrorCode::Message.
                     self.stream
-                        .take()
-                        .unwrap()
+                        .take_stream()
+                        .expect("stream is idle after a complete read")
                         .reset(ErrorCode::NoError.to_code());
 
                     DriverError::ApplicationClosed(ApplicationClose::new(
